@@ -185,6 +185,7 @@ var mcPrograms = map[string]struct {
 	"A": {2, map[string][]string{"p1": {"g1", "g2", "g1"}, "p2": {"g1", "par"}}, 1, 1},
 	"B": {1, map[string][]string{"p1": {"g1", "g1", "g1"}, "p2": {"g1"}}, 1, 1},
 	"C": {3, map[string][]string{"p1": {"g1", "g2"}, "p2": {"g2", "g1"}}, 0, 2},
+	"D": {1, map[string][]string{"p1": {"g1", "g2", "g2"}, "p2": {"g2", "g1"}}, 0, 2},
 }
 
 var subKinds = []string{"with", "withres", "withgroup", "get", "call"}
@@ -199,7 +200,7 @@ func programFor(cfg string, rng *rand.Rand, workers int) Program {
 
 func programForKinds(cfg string, rng *rand.Rand, workers int, kinds []string) Program {
 	m := mcPrograms[cfg]
-	p := Program{Workers: m.workers, Producers: map[string][]Sub{}, Shutdown: true, Cycles: m.cycles}
+	p := Program{Workers: m.workers, InCh: []int{0, 1, 2}[rng.Intn(3)], Producers: map[string][]Sub{}, Shutdown: true, Cycles: m.cycles}
 	if workers > 0 {
 		p.Workers = workers
 	}
@@ -321,7 +322,7 @@ func Run(c *core.Ctx) {
 	}
 	// (B2) random behaviours of the repaired model
 	nsim := c.Pick(60, 600)
-	for _, k := range []string{"A", "B", "C"} {
+	for _, k := range []string{"A", "B", "C", "D"} {
 		behs := simulate(c, "MCSched"+k+".cfg", nsim, 90, c.Seed)
 		for i, b := range behs {
 			add(Job{Mode: "replay", Seed: c.Seed + int64(i), Prog: programForKinds(k, rng, 0, replayKinds), Steps: b, Src: fmt.Sprintf("tlc -simulate MCSched%s seed %d #%d", k, c.Seed, i)})
